@@ -205,7 +205,7 @@ impl Property for C06 {
         let max_ops = if th { 80 } else { 30 };
         let op = prop_oneof![
             6 => Just(Op::Process { path: Path::Pib, slack_in: 0, slack_out: 0, mask: None }),
-            4 => (prop_oneof![1 => Just(-1.0f64), 1 => Just(1.0f64), 4 => -1.0f64..=1.0], any::<bool>(), any::<bool>()).prop_map(|(pos, relative, ramp)| Op::SetRatio { pos, relative, ramp }),
+            4 => (prop_oneof![1 => Just(-1.0f64), 1 => Just(1.0f64), 1 => Just(0.0f64), 4 => -1.0f64..=1.0], any::<bool>(), any::<bool>()).prop_map(|(pos, relative, ramp)| Op::SetRatio { pos, relative, ramp }),
             1 => any::<u16>().prop_map(|frac| Op::SetChunk { frac }),
         ];
         (0usize..4, ratio_strategy(), max_rel_strategy(16.0), chunk_strategy(if th { 2048 } else { 512 }), 0u8..4, 0u8..3, prop_oneof![Just(8usize), Just(16usize), 8usize..=128], prop_oneof![1 => Just(1usize), 1 => Just(2usize), 3 => 1usize..=64], proptest::collection::vec(op, 3..=max_ops), prop_oneof![2 => Just(1usize), 1 => Just(2usize), 1 => Just(3usize)])
